@@ -1043,8 +1043,14 @@ impl Compiler {
                         // We want to assign the slice containing all but the last two items to
                         // the given id.
                         let id_register = self.assign_local_register(*id)?;
-                        let to_index = -(args.len() as i8 - 1) as u8;
-                        self.push_op(SliceTo, &[id_register, container_register, to_index]);
+                        if is_last_arg {
+                            // e.g. [all...]
+                            // There are no other args, so all of the items are assigned to the id.
+                            self.push_op(SliceFrom, &[id_register, container_register, 0]);
+                        } else {
+                            let to_index = -(args.len() as i8 - 1) as u8;
+                            self.push_op(SliceTo, &[id_register, container_register, to_index]);
+                        }
                     }
 
                     index_from_end = true;
